@@ -78,7 +78,7 @@ def run(pid, tier, seed, *, mc, cfgs, assumptions, level="model_checking", rule=
         mc_info = []
         for m in mc:
             r = core.run_tlc(m["module"], m["cfg"], sc, workers=m.get("workers", core.NCPU), tag=m["tag"],
-                             coverage=m.get("coverage", False), timeout=m.get("timeout", 1800))
+                             coverage=m.get("coverage", m.get("expect", "pass") == "pass"), timeout=m.get("timeout", 1800))
             if m.get("expect", "pass") == "pass":
                 core.tlc_must_pass(r, m["tag"])
                 states += r.distinct
@@ -86,7 +86,8 @@ def run(pid, tier, seed, *, mc, cfgs, assumptions, level="model_checking", rule=
             else:
                 core.tlc_must_fail(r, m["tag"], m["expect"][1])
             mc_info.append(dict(run=m["tag"], module=m["module"], distinct=r.distinct, generated=r.generated,
-                                depth=r.depth, expect=m.get("expect", "pass"), errors=r.errors[:2], wall_s=round(r.wall, 1)))
+                                depth=r.depth, expect=m.get("expect", "pass"), errors=r.errors[:2], wall_s=round(r.wall, 1),
+                                actions_taken={a: v[1] for a, v in r.coverage.items() if a != "Init"}))
         n_apa = core.run_apalache(apalache[0], apalache[1], sc) if apalache else 0
         traces = core.run_drivers("harness.drv_datagen:run_case", cfgs)
         crashed = [t for t in traces if "tb" in t]
